@@ -13,6 +13,11 @@ CASES = [
     # a function behind a signature-agnostic functools.wraps decorator: its OWN signature counts
     ('vw.wrapped', 'a', True), ('vw.wrapped', 'bogus', False), ('vw.wrapped_deny', 'b', False),
     ('vw.wrapped_deny', 'zzz', False),
+    # registered methods of a registered class carrying their own deny / allow lists
+    ('vw.KmethD.dmeth', 'b', False), ('vw.KmethD.dmeth', 'a', True), ('vw.KmethD.ameth', 'b', False),
+    ('vw.KmethD.ameth', 'a', True),
+    # two functools.wraps layers
+    ('vw.wrapped2', 'bogus', False), ('vw.wrapped2', 'b', True),
 ]
 NCASE = len(CASES)
 PATHS = ['string key', 'tuple key', 'scoped string key', 'parse_config flat', 'block member',
@@ -32,7 +37,7 @@ def cfg_copy():
 def c11_step(case: int, path: int, p0: bool, p1: bool, p2: bool, p3: bool,
              v0: int, v1: int, v2: int, v3: int, nv: int) -> bool:
   """
-  pre: 0 <= case < 19 and 0 <= path < 9
+  pre: 0 <= case < 25 and 0 <= path < 9
   """
   world.fresh()
   case = rt.pick(case, NCASE)
@@ -102,6 +107,7 @@ def c11_step(case: int, path: int, p0: bool, p1: bool, p2: bool, p3: bool,
   if exc is not None:
     return False
   full = {'Kmeth.meth': 'vw.Kmeth.meth'}.get(sel, sel)
+
   want = {}
   for k, d in before.items():
     want[k] = dict(d)
@@ -136,11 +142,11 @@ HARNESSES = {
         smoke=[dict(case=4, path=4, p0=True, p1=True, p2=False, p3=True, v0=1, v1=2, v2=3, v3=4, nv=9),
                dict(case=8, path=5, p0=True, p1=False, p2=True, p3=False, v0=1, v1=2, v2=3, v3=4, nv=9),
                dict(case=9, path=3, p0=False, p1=False, p2=False, p3=False, v0=1, v1=2, v2=3, v3=4, nv=9)],
-        tiers={'quick': dict(split=dict(case=list(range(19)), path=list(range(9))),
+        tiers={'quick': dict(split=dict(case=list(range(25)), path=list(range(9))),
                              fixed=dict(p2=False, p3=False), budget_s=100),
-               'thorough': dict(split=dict(case=list(range(19)), path=list(range(9))), budget_s=300)},
+               'thorough': dict(split=dict(case=list(range(25)), path=list(range(9))), budget_s=300)},
         bounds='inductive step: arbitrary subset of 4 existing bindings (2 in quick) with symbolic values, then '
-               'one attempted binding: 19 (configurable, parameter) cases (valid, unknown parameter, **kwargs '
+               'one attempted binding: 25 (configurable, parameter) cases (valid, unknown parameter, **kwargs '
                'catch-all, allow-listed / not, deny-listed / not, unknown configurable, method through class, '
                'bare method name, class, function behind a functools.wraps decorator with and without a denylist) x 9 API paths (string key, tuple key, scoped key, parse_config flat, '
                'block member, scoped block member, finalize hook alone / after a valid entry of the same hook / after a valid hook); values: all ints'),
